@@ -17,6 +17,8 @@ def jobs(pid, tier, seed):
     for name, params in scenarios.directed_for(pid, tier):
         out.append({"kind": "directed", "name": name, "params": params})
     out += [{"kind": "dirdiff", "i": i} for i in range(len(dirdiff_histories()))]
+    from ..fixtures import SPECS
+    out += [{"kind": "fixture", "name": nm, "seed": seed * 1000 + i} for nm in sorted(SPECS) for i in range(8 if tier == "quick" else 150)]
     n = 900 if tier == "quick" else 20000
     out += [{"kind": "diff", "seed": seed * 1000003 + i} for i in range(n)]
     return out
@@ -113,6 +115,9 @@ def observe(hist, cfg, seed, app, conns):
 
 
 def run_job(pid, job, acc):
+    if job["kind"] == "fixture":
+        from .histcheck import run_fixture
+        return run_fixture(pid, job, acc)
     if job["kind"] == "directed":
         for case, hist, cfg, opts in scenarios.build(pid, job["name"], job["params"]):
             run_hist(acc, hist, cfg, 0, case, nontrivial_keys=KEYS, keep_sample=(len(acc.samples) < 1), **opts)
@@ -162,6 +167,10 @@ def run_job(pid, job, acc):
 
 
 def replay(pid, rep):
+    if rep.get("kind") == "fixture":
+        acc = Acc(pid)
+        run_job(pid, rep["job"], acc)
+        return acc
     if rep.get("kind") == "diff":
         acc = Acc(pid)
         k, s = rep["case"].split(":")[0], int(rep["case"].split(":")[1])
